@@ -9,7 +9,7 @@ from permute import npc as NPC
 COQ_HEADER = """From PV Require Import Lib.Base Model.Npc Model.Adjust Corr.C09.
 Open Scope Q_scope."""
 RULE = ("p-vectors in every order for j<=4 distinct grid values (all permutations, incl. 3-cycles) and random vectors j<=5 with "
-        "ties, distr matrices B<=8 with ties, combiners fisher/liptak/tippett/valid callable, plus1 in {T,F}; each case is also run "
+        "ties (Liptak: raw p-values up to 1-2^-40 with rows on column minima), distr matrices B<=8 with ties, combiners fisher/liptak/tippett/valid callable, plus1 in {T,F}; each case is also run "
         "on a random relabelling (pvalues and columns permuted together); non-trivial = the sorting order is not an involution or "
         "the vector has a tie; distinct by full input; exact-tie cases skipped for the value comparison")
 EXHAUSTIVE = {"quick": ["all orderings of 3 distinct grid p-values x 6 matrices x 3 combiners"],
@@ -38,6 +38,10 @@ def cases(tier, rng, dist):
         pool = [Fraction(rng.randint(1, hi), 8) for _ in range(rng.randint(1, j))]
         p = [rng.choice(pool) if rng.random() < 0.5 else Fraction(rng.randint(1, hi), 8) for _ in range(j)]
         m = gen_matrix(rng, B, j, rng.randint(0, 4))
+        if spec == "liptak" and rng.random() < 0.6:
+            # raw p-values very close to 1 together with rows sitting on column minima (clipped partial p-values)
+            p = [rng.choice([1 - Fraction(1, 2**rng.choice([10, 20, 30, 40])), Fraction(9999, 10000), Fraction(rng.randint(1, 7), 8)]) for _ in range(j)]
+            m = gen_matrix(rng, rng.randint(3, 8), j, 1)
         yield {"p": [str(x) for x in p], "distr": [[str(v) for v in r] for r in m], "comb": spec, "plus1": rng.random() < 0.5,
                "perm_seed": rng.randint(0, 10**6)}
 
